@@ -764,9 +764,13 @@ class SymArr:
         raise paths.OutOfReach("reshape of an array with symbolic extent")
 
     def __iter__(self):
+        if not isinstance(self.axes[0], Dim):
+            return iter([self[i] for i in range(int(self.axes[0]))])      # a concrete leading axis: numpy's own iteration
         raise paths.OutOfReach("iteration over a symbolic axis outside an instrumented for-loop")
 
     def __len__(self):
+        if not isinstance(self.axes[0], Dim):
+            return int(self.axes[0])
         raise paths.OutOfReach("len() of a symbolic axis (builtin len is shimmed in verified modules)")
 
     def generic_row(self):
